@@ -13,7 +13,8 @@ Part "ik"  : bases {I, B1 (moved there), BS (seed-generic, constructed there)} x
    respin_points   after spinCustom both plate poses are unchanged and the plate-fixed points are the old ones rotated
                    about the plate z axis - for a re-spin at the neutral pose (pose 0) and for a re-spin applied while
                    the platform stands at one of the 26 non-neutral poses of a 27-pose sub-grid (x, rx=ry, rz), when
-                   the pose is inside the workspace before and after the re-spin
+                   the pose is inside the workspace before and after the re-spin; each followed by a SECOND consecutive
+                   re-spin with the other argument form (radians / degrees), expected Rz(a1 + a2)
 Part "fk"  : FIXED lattice (no seed element): bases {I, B1} x spins x the 81-pose sub-grid x fk_mode {1, 0}; only poses
              inside the workspace (IK with protect=True, then validate(donothing=True) accepts the state as it stands).
    fk_roundtrip    FK(lengths) on a fresh platform at the neutral pose returns the pose (translation, and rotation angle
@@ -35,7 +36,9 @@ thorough: all 432 geometries x all three spins.  Both tiers stop at a wall-clock
 and then report the unfinished index ranges with exhaustive:false.
 
 `VERIF_C09_WRITE_LIST=1 ./check C09 --tier thorough` regenerates the case list (never written otherwise; =merge unions
-with the entries already there).  Generator mode evaluates the FK part only, without the time cap.
+with the entries already there).  Generator mode evaluates the FK part only, without the time cap, requires the run to
+be complete, and evaluates every case four more times with the requested lengths moved by up to 4 ulp (hysteresis in
+input space: the rare bistable cases of the Newton-Raphson path - about 1 in 1e5 - are listed as 'unstable').
 """
 import os
 import time
@@ -56,6 +59,7 @@ G_RIGID = se3.T_from_taa([0.3, -0.7, 0.2, -0.4, 0.2, 0.6])
 LIST_REL = os.path.join("known_findings", "c09_fk_cases.txt")
 CHAOTIC_ID = "fsolve-zero-rotation-start"
 EXP_CUTOFF = 1e-6        # NearZero() in the library's MatrixExp3
+N_PERTURB = 4            # list generator: extra evaluations of every case with the lengths moved by up to 4 ulp
 RESPIN_AT = tuple(i for i in splib.FK_SUBGRID if splib.pose_digits(i)[2] == 0 and i != 0)
 
 
@@ -99,6 +103,11 @@ def _case(part, gid, base, spin, seed, pose, **kw):
 
 
 # ------------------------------------------------------------------------------------------------ case evaluators
+def _spin(sp, name):
+    a = splib.spin_arg(name)
+    sp.spinCustom(a[0], a[1]) if a[1] else sp.spinCustom(a[0])
+
+
 def eval_ik(P, case, out):
     """One (platform, pose) pair of part 'ik'.  Appends (clause, observed, tol, residual) to out; returns in_workspace."""
     from basic_robotics.general import tm
@@ -120,39 +129,60 @@ def eval_ik(P, case, out):
         r = max(np.abs(P.B_neutral - P.B).max(), np.abs(P.Tt_neutral - Tt).max())
         out.append(("base_placement", float(r), TOL_IK, None))
     if P.spin != "s0":
+        other = "s-60d" if P.spin == "s0.4" else "s0.4"          # the second, consecutive re-spin uses the other argument form
+        a12 = splib.spin_angle(P.spin) + splib.spin_angle(other)
+        bl2, tl2 = pg.spin_points(P.bl0, a12), pg.spin_points(P.tl0, a12)
+
+        def points(sp, Tt_want):
+            Tb2, Tt2 = splib.T_of(sp.getBottomT()), splib.T_of(sp.getTopT())
+            return (pg.to_plate(Tb2, np.array(sp.getBottomJoints(), float)), pg.to_plate(Tt2, np.array(sp.getTopJoints(), float)),
+                    max(np.abs(Tb2 - P.B).max(), np.abs(Tt2 - Tt_want).max()))
+
+        def inside(bl_, tl_):      # leg range of the re-spun geometry at this pose, decided by the oracle
+            Lr = pg.leg_lengths(P.B, Tt, bl_, tl_)
+            return bool(np.all(Lr > P.nominal["lmin"] + 1e-9) and np.all(Lr < P.nominal["lmax"] - 1e-9))
+
         if i == 0:
             r = max(np.abs(P.bl_read - P.bl).max(), np.abs(P.tl_read - P.tl).max(),
                     np.abs(P.B_read - P.B_neutral).max(), np.abs(P.Tt_read - P.Tt_neutral).max())
-            out.append(("respin_points", float(r), TOL_IK, {"spun_at_pose": 0}))
+            out.append(("respin_points", float(r), TOL_IK, {"spun_at_pose": 0, "second_spin": False}))
+            s5 = P.fresh()
+            with splib.quiet():
+                _spin(s5, other)
+            b_, t_, dp = points(s5, Tt)
+            out.append(("respin_points", float(max(np.abs(b_ - bl2).max(), np.abs(t_ - tl2).max(), dp)), TOL_IK, {"spun_at_pose": 0, "second_spin": True}))
         elif ok and i in RESPIN_AT:
-            # the same platform before its re-spin, standing at pose i, re-spun there
+            # the same platform before its re-spin, standing at pose i, re-spun there (twice)
             P0 = platform(P.geo.gid, P.base, "s0", P.seed)
             s4 = P0.fresh()
             _, ok0 = splib.place(s4, Tt, P.B)
             if not ok0:        # the pose must be inside the workspace before AND after the re-spin (no corrective action)
                 return ok
-            a = splib.spin_arg(P.spin)
             with splib.quiet():
-                s4.spinCustom(a[0], a[1]) if a[1] else s4.spinCustom(a[0])
-            Tb2, Tt2 = splib.T_of(s4.getBottomT()), splib.T_of(s4.getTopT())
-            bl = pg.to_plate(Tb2, np.array(s4.getBottomJoints(), float))
-            tl = pg.to_plate(Tt2, np.array(s4.getTopJoints(), float))
-            r = max(np.abs(bl - P.bl).max(), np.abs(tl - P.tl).max(), np.abs(Tb2 - P.B).max(), np.abs(Tt2 - Tt).max())
-            out.append(("respin_points", float(r), TOL_IK, {"spun_at_pose": i}))
+                _spin(s4, P.spin)
+            b_, t_, dp = points(s4, Tt)
+            out.append(("respin_points", float(max(np.abs(b_ - P.bl).max(), np.abs(t_ - P.tl).max(), dp)), TOL_IK, {"spun_at_pose": i, "second_spin": False}))
+            if inside(bl2, tl2):
+                with splib.quiet():
+                    _spin(s4, other)
+                b_, t_, dp = points(s4, Tt)
+                out.append(("respin_points", float(max(np.abs(b_ - bl2).max(), np.abs(t_ - tl2).max(), dp)), TOL_IK, {"spun_at_pose": i, "second_spin": True}))
     return ok
 
 
-def eval_fk(P, pose, modes=(1, 0)):
-    """-> None when the pose is outside the workspace, else {mode: (ratio, detail)} with ratio = residual / (1e-3 h)."""
+def eval_fk(P, pose, modes=(1, 0), ulps=None):
+    """-> None when the pose is outside the workspace, else {mode: (ratio, detail)} with ratio = residual / (1e-3 h).
+    ulps (six small integers, list generator only): the requested lengths are moved by that many units in the last place."""
     Tt = P.B @ splib.rel_pose(P.h, pose)
     L, ok = splib.place(P.fresh(), Tt, P.B)
     if not ok:
         return None
+    Lreq = L if ulps is None else L * (1.0 + np.asarray(ulps, float) * 2.220446049250313e-16)
     res = {}
     for mode in modes:
         s = P.fresh()
         with splib.quiet():
-            top, valid = s.FK(L.copy(), fk_mode=mode)
+            top, valid = s.FK(Lreq.copy(), fk_mode=mode)
         T = splib.T_of(top)
         ang, dist = se3.pose_err(T, Tt)
         el = float(np.abs(np.array(s.getLens(), float).reshape(6) - L).max())
@@ -207,7 +237,7 @@ def work_ik(p):
             if fl and fl.get("valid") is False:
                 acc.outcome("unprotected_ik_said_invalid_in_workspace")
             if fl and "spun_at_pose" in fl:
-                acc.outcome("respin_at_neutral" if fl["spun_at_pose"] == 0 else "respin_at_pose")
+                acc.outcome(("respin_at_neutral" if fl["spun_at_pose"] == 0 else "respin_at_pose") + ("_second" if fl.get("second_spin") else ""))
             if not r <= tol:
                 acc.violation(clause, case, r, tol, flags={k: v for k, v in (fl or {}).items() if isinstance(v, bool)},
                               quantities={k: v for k, v in (fl or {}).items() if not isinstance(v, bool)})
@@ -236,7 +266,8 @@ def work_fk(p):
         res = None
         for mode in (1, 0):
             case = _case("fk", gid, base, spin, 0, pose, mode=mode)
-            chaotic = mode == 0 and se3.rangle(P.Tt_read[:3, :3]) < EXP_CUTOFF
+            start_rot = float(np.linalg.norm(se3.rlog(P.Tt_read[:3, :3])))     # rotation vector of the pose FK starts from
+            chaotic = mode == 0 and start_rot < EXP_CUTOFF                      # structural: solver path and start pose only
             cid = CHAOTIC_ID if chaotic else splib.case_id(gid, base, spin, pose, mode)
             try:
                 one = eval_fk(P, pose, (mode,))
@@ -254,10 +285,25 @@ def work_fk(p):
                                          "fail" if not ratio <= 1 else ("marginal" if ratio > MARGIN else "ok")))
             if not det["valid"]:
                 acc.outcome("fk_said_invalid")
-            if not ratio <= MARGIN and not chaotic:
-                ratios.append((cid, ratio))
+            worst = ratio
+            if p.get("generator") and not chaotic:
+                # input-space hysteresis: a few cases are bistable (the iteration runs into its iteration cap and restarts);
+                # list whatever fails or is marginal under +-4 ulp on the requested lengths as well
+                rg = np.random.default_rng([pose, mode, len(gid), sum(map(ord, gid + base + spin))])
+                for _ in range(N_PERTURB):
+                    try:
+                        alt = eval_fk(P, pose, (mode,), ulps=rg.integers(-4, 5, 6))[mode][0]
+                    except Exception:
+                        alt = float("inf")
+                    if not alt <= worst:
+                        worst = alt
+                if not worst <= MARGIN and ratio <= MARGIN:
+                    acc.outcome("mode%d_unstable_under_ulp_perturbation" % mode)
+            if not worst <= MARGIN and not chaotic:
+                ratios.append((cid, worst, "fail" if not ratio <= 1 else ("marginal" if ratio > MARGIN else "unstable")))
             if not ratio <= 1:
-                acc.violation("fk_roundtrip", case, det, FK_REL, quantities={"residual_over_bound": min(ratio, 1e300)},
+                acc.violation("fk_roundtrip", case, det, FK_REL,
+                              quantities={"residual_over_bound": min(ratio, 1e300), "fk_mode": mode, "start_rotation_vector_norm": start_rot},
                               flags={"respun": spin != "s0", "moved": base != "I", "fsolve_zero_rotation_start": bool(chaotic)},
                               case_id=cid)
             if idx % 1009 == 0 and mode == 1:
@@ -269,8 +315,8 @@ def work_fk(p):
 
 
 # ------------------------------------------------------------------------------------------------ driver
-def _run_part(ctx, pool, fn, total, blocks, deadline, nshards, name):
-    payloads = [{"lo": lo, "hi": hi, "seed": ctx.seed, "tier": ctx.tier, "blocks": blocks, "deadline": deadline}
+def _run_part(ctx, pool, fn, total, blocks, deadline, nshards, name, generator=False):
+    payloads = [{"lo": lo, "hi": hi, "seed": ctx.seed, "tier": ctx.tier, "blocks": blocks, "deadline": deadline, "generator": generator}
                 for lo, hi in shards(total, nshards)]
     res = pool.map(MOD, fn, payloads)
     m = lattice.merge(res)
@@ -287,34 +333,38 @@ def write_list(ctx, ratios, fk_blocks, how="1"):
     p = os.path.join(env.VERIF, LIST_REL) if how in ("1", "merge") else how
     os.makedirs(os.path.dirname(p), exist_ok=True)
     best = {}
+    rank = {"unstable": 0, "marginal": 1, "fail": 2}
     if how == "merge" and os.path.exists(p):
         for line in open(p):
             body, _, com = line.partition("#")
-            if body.strip():
+            w = com.split()
+            if body.strip() and len(w) >= 2 and w[0] in rank:
                 try:
-                    best[body.strip()] = float(com.split()[-1])
-                except (ValueError, IndexError):
-                    best[body.strip()] = float("inf")
-    for cid, r in ratios:
-        if not r <= best.get(cid, -1.0):
-            best[cid] = r
+                    best[body.strip()] = (float(w[1]), w[0])
+                except ValueError:
+                    best[body.strip()] = (float("inf"), w[0])
+    for cid, r, cat in ratios:
+        old_r, old_cat = best.get(cid, (-1.0, "unstable"))
+        best[cid] = (r if not r <= old_r else old_r, cat if rank[cat] >= rank[old_cat] else old_cat)
     best.pop(CHAOTIC_ID, None)
     rows = sorted(best.items())
-    nf = sum(1 for _, r in rows if not r <= 1)
+    nf = sum(1 for _, (r, cat) in rows if cat == "fail")
+    nm = sum(1 for _, (r, cat) in rows if cat == "marginal")
     with open(p + ".tmp", "w") as f:
         f.write("# KF2 - platform FK misses in-workspace lattice poses (C09 clause fk_roundtrip).  One case id per line:\n"
                 "# <geometry>/<base>/<spin>/p<pose index>/m<fk_mode>.  'fail' = residual above the bound 1e-3 h on the repaired\n"
                 "# tree, 'marginal' = residual within a factor 4 below the bound (listed so that a last-bit difference\n"
-                "# between machines cannot raise an alarm); the number is residual / bound (largest seen when merged).\n"
+                "# between machines cannot raise an alarm), 'unstable' = passes as it stands but fails or is marginal when the\n"
+                "# requested lengths are moved by up to 4 ulp (%d trials per case); the number is the largest residual / bound seen.\n"
                 "# Generated by VERIF_C09_WRITE_LIST=1|merge ./check C09 --tier thorough; last tree %s;\n"
-                "# lattice: %d (geometry, base, spin) blocks x %d poses x 2 modes; %d fail + %d marginal.\n"
-                % (os.environ.get("VERIF_TREE_SHA", "")[:16], len(fk_blocks), len(splib.FK_SUBGRID), nf, len(rows) - nf))
+                "# lattice: %d (geometry, base, spin) blocks x %d poses x 2 modes; %d fail + %d marginal + %d unstable.\n"
+                % (N_PERTURB, os.environ.get("VERIF_TREE_SHA", "")[:16], len(fk_blocks), len(splib.FK_SUBGRID), nf, nm, len(rows) - nf - nm))
         f.write("%s  # class: fk_mode 0 started from a rotation vector below the exponential's 1e-6 cut-off (unrotated base); "
                 "outcome depends on rounding noise, see checks/c09.py\n" % CHAOTIC_ID)
-        for cid, r in rows:
-            f.write("%s  # %s %.3g\n" % (cid, "fail" if not r <= 1 else "marginal", r))
+        for cid, (r, cat) in rows:
+            f.write("%s  # %s %.3g\n" % (cid, cat, r))
     os.replace(p + ".tmp", p)
-    ctx.log("wrote %s: %d fail + %d marginal" % (p, nf, len(rows) - nf))
+    ctx.log("wrote %s: %d fail + %d marginal + %d unstable" % (p, nf, nm, len(rows) - nf - nm))
 
 
 def warm():
@@ -338,7 +388,7 @@ def run(ctx):
     with ctx.pool() as pool:
         w = pool.workers
         m_fk = _run_part(ctx, pool, "work_fk", nfk, fk_blocks, 0.0 if "fk" not in parts else (float("inf") if generator else deadline),
-                         w * (24 if ctx.tier == "thorough" else 6), "fk")
+                         w * (24 if ctx.tier == "thorough" else 6), "fk", generator=bool(wl))
         m_ik = _run_part(ctx, pool, "work_ik", nik, ik_blocks, 0.0 if (generator or "ik" not in parts) else deadline,
                          w * (12 if ctx.tier == "thorough" else 4), "ik")
     if wl:
@@ -358,7 +408,14 @@ def run(ctx):
                                  "ik": {"total": nik, "unfinished_index_ranges": m_ik["undone"][:40]}}
     ctx.coverage["kf2"] = {"list_entries": len(listed), "fk_failures_this_run": m_fk["nviol"],
                            "fk_failures_not_listed": sum(1 for v in m_fk["viols"] if v["clause"] == "fk_roundtrip" and v["case_id"] not in listed),
-                           "fk_failures_in_chaotic_class": sum(1 for v in m_fk["viols"] if v["case_id"] == CHAOTIC_ID),
+                           "class_fsolve_zero_rotation_start": {
+                               "predicate": "fk_mode == 0 and |rotation vector of the start pose| < 1e-6 (exactly 0 on this lattice)",
+                               "cases": sum(m_fk["outcomes"].get("mode0_zero_rotation_start_" + k, 0) for k in ("ok", "marginal", "fail")),
+                               "pass": sum(m_fk["outcomes"].get("mode0_zero_rotation_start_" + k, 0) for k in ("ok", "marginal")),
+                               "fail": m_fk["outcomes"].get("mode0_zero_rotation_start_fail", 0)},
+                           "fsolve_at_rotated_start": {
+                               "cases": sum(m_fk["outcomes"].get("mode0_" + k, 0) for k in ("ok", "marginal", "fail")),
+                               "fail": m_fk["outcomes"].get("mode0_fail", 0)},
                            "stable_marginal_or_failing_this_run": len(m_fk["ratios"])}
     ctx.assumptions += ["in-workspace = IK(protect=True) followed by validate(donothing=True) accepts the state with the library's default validation switches",
                         "FK pose residual = max(translation error, rotation angle x h, length error) against 1e-3 h",
